@@ -374,6 +374,8 @@ class Explorer:
                 return TOP
         if op in ('AddWithOverflow', 'SubWithOverflow', 'Add', 'Sub') and self.trace:
             return sym('%s(%s,%s)' % (op[:3].lower(), show(a), show(b)))
+        if op in ('Gt', 'Ge', 'Lt', 'Le', 'Eq', 'Ne') and self.trace:
+            return sym('%s(%s,%s)' % (op.lower(), show(a), show(b)))
         # absorbing elements for bool ops
         for k, o in ((a, b), (b, a)):
             if isinstance(k, I):
@@ -610,9 +612,15 @@ class Explorer:
                         break
                     if self.tag_named and nm and isinstance(val, U) and val.tag is None and not val.ch:
                         val = sym(nm)
+                    if self.trace and nm:
+                        events = events | {('let', nm, val, st[3])}
                     env[loc] = val
                     if rv[0] != 'discr':
                         dsrc.pop(loc, None)
+                    if rv[0] == 'use' and rv[1][0] in ('c', 'm') and not rv[1][1][1] and not isinstance(val, I):
+                        dsrc[loc] = ('alias', rv[1][1][0])
+                    elif rv[0] == 'un' and rv[1] == 'Not' and rv[2][0] in ('c', 'm') and not rv[2][1][1] and not isinstance(val, I):
+                        dsrc[loc] = ('notalias', rv[2][1][0])
                 else:
                     if self.trace:
                         events = events | {('assign', self.place_desc(env, loc, projs, names), val, st[3])}
@@ -747,7 +755,7 @@ class Explorer:
                 ty = rec['locals'][sloc][0]
                 if ty == 'bool' and listed == {0}:
                     self.refine(e2, sloc, src, 1, rec)
-                elif src is not None:
+                elif src is not None and src[0] not in ('alias', 'notalias'):
                     # exactly one variant not listed -> refine to it
                     vn = variant_names(self.facts, src[2])
                     if vn:
@@ -780,6 +788,13 @@ class Explorer:
     def refine(self, env, sloc, src, val, rec):
         if sloc is not None:
             env[sloc] = I(val)
+        if src is not None and src[0] in ('alias', 'notalias'):
+            ty = rec['locals'][src[1]][0]
+            if src[0] == 'alias' and (ty == 'bool' or ty.startswith(('u', 'i'))):
+                env[src[1]] = I(val)
+            elif src[0] == 'notalias' and ty == 'bool' and val in (0, 1):
+                env[src[1]] = I(1 - val)
+            return
         if src is not None:
             loc, projs, adt = src
             cur = strip(read_proj(env.get(loc, TOP), projs))
